@@ -62,6 +62,9 @@ type GenOpts struct {
 	// goimports has to add an import on its own) and a second package of the same
 	// name exporting the same functions exists elsewhere in the module
 	ForceHooks bool
+	// Competing: two :map rules compete for one destination field in every method
+	// that copies a struct with that field
+	Competing bool
 }
 
 var RejectFamilies = []string{
@@ -127,6 +130,21 @@ func GenWorld(r *Rng, opts GenOpts, variantCount int) *WorldSpec {
 		}
 		Shuffle(r, idx)
 		idx = idx[:k]
+		if opts.Competing {
+			// make sure the fields that the competing :map rules need are there
+			for want := range fieldAlphabet {
+				switch fieldAlphabet[want].name {
+				case "Name", "Email", "Title":
+					has := false
+					for _, i := range idx {
+						has = has || i == want
+					}
+					if !has {
+						idx = append(idx, want)
+					}
+				}
+			}
+		}
 		sort.Ints(idx)
 		var fs []fieldKind
 		for _, i := range idx {
@@ -366,7 +384,11 @@ func GenWorld(r *Rng, opts GenOpts, variantCount int) *WorldSpec {
 						m.notations = append(m.notations, ":skip "+f.name)
 						continue
 					}
-					switch vr.Intn(14) {
+					pick := vr.Intn(14)
+					if opts.Competing && f.name == "Email" {
+						pick = 3
+					}
+					switch pick {
 					case 0:
 						m.notations = append(m.notations, ":skip "+f.name)
 						feat["skip"] = true
@@ -374,6 +396,11 @@ func GenWorld(r *Rng, opts GenOpts, variantCount int) *WorldSpec {
 						if f.modelType == "string" && f.domainType == "string" {
 							m.notations = append(m.notations, fmt.Sprintf(":literal %s \"lit-%d\"", f.name, mcount))
 							feat["literal"] = true
+							if vr.Chance(1, 3) {
+								// a second literal for the same field, sorting before the first
+								m.notations = append(m.notations, fmt.Sprintf(":literal %s \"alt-%d\"", f.name, mcount))
+								feat["competing-rules"] = true
+							}
 						}
 					case 2:
 						if f.name == "Age" {
@@ -397,12 +424,25 @@ func GenWorld(r *Rng, opts GenOpts, variantCount int) *WorldSpec {
 						}
 					case 3:
 						if f.name == "Email" {
+							var srcs []string
 							for _, g := range d.fields {
 								if g.name == "Name" || g.name == "Title" {
-									m.notations = append(m.notations, fmt.Sprintf(":map %s Email", g.name))
-									feat["map"] = true
-									break
+									srcs = append(srcs, g.name)
 								}
+							}
+							if len(srcs) == 2 && (vr.Bool() || opts.Competing) {
+								// two rules of one notation compete for the same destination, written
+								// in either order (the first one wins today)
+								if vr.Bool() {
+									srcs[0], srcs[1] = srcs[1], srcs[0]
+								}
+								feat["competing-rules"] = true
+							} else if len(srcs) > 1 {
+								srcs = srcs[:1]
+							}
+							for _, g := range srcs {
+								m.notations = append(m.notations, fmt.Sprintf(":map %s Email", g))
+								feat["map"] = true
 							}
 						}
 					case 4:
